@@ -32,6 +32,7 @@ import (
 	"math/big"
 	mrand "math/rand"
 	"os"
+	"runtime"
 	"sync"
 	"testing"
 	"time"
@@ -281,6 +282,8 @@ func deviceCertT(root, other, namesake *vCA, dev crypto.Signer, rel, tm string, 
 }
 
 type vDev struct {
+	honest  *x509.Certificate // a slot certificate value honestly signed by this device key (SHA-256, PKCS#1 v1.5)
+	honEM   vEM
 	der     map[string][]byte // cross classes: device certificates as DER
 	slot    []byte            // a well-formed slot certificate signed by this device key
 	genuine *x509.Certificate // root-issued, valid, ANOTHER key (victim), the identity the twins copy
@@ -373,6 +376,15 @@ func (w *vWorld) device(kt string, bits int, serial int64) *vDev {
 	}
 	if d.rsa != nil {
 		w.crossDeviceCerts(d, serial+20)
+		tbs := w.tbs[1]
+		sig, err := rsa.SignPKCS1v15(nil, d.rsa, crypto.SHA256, digestOf("sha256", tbs))
+		if err != nil {
+			panic(err)
+		}
+		k := (d.rsa.N.BitLen() + 7) / 8
+		em := new(big.Int).Exp(new(big.Int).SetBytes(sig), big.NewInt(int64(d.rsa.E)), d.rsa.N).FillBytes(make([]byte, k))
+		d.honest = &x509.Certificate{RawTBSCertificate: tbs, Signature: sig, SignatureAlgorithm: x509.SHA256WithRSA}
+		d.honEM = abstractEM(em, tbs, "sha256")
 	}
 	return d
 }
@@ -388,6 +400,26 @@ func (w *vWorld) attestOn(a *yubiattest.Attestor, dev, slot *x509.Certificate) (
 		}
 	}()
 	return vRes06{Acc: a.Attest(dev, slot) == nil}
+}
+
+// afterAccept issues, back to back on the calling goroutine and on the long-lived Attestor, an honest attestation with
+// d's key (recorded as its own event; it must be accepted) and then the call (dc, slot): whatever the verifier keeps
+// from a successful verification is still there when the second call runs.
+func (w *vWorld) afterAccept(d *vDev, dc, slot *x509.Certificate, tid string, tr *verifh.Trace, st *vStats06) vRes06 {
+	pc := vCase06{P: "C06", Kt: "rsa", Alg: 4, Rel: "root", Time: "valid", Sf: "canon", H0: "sha256", N0: true, Mut: "pred", Em: d.honEM}
+	pe := &vE06{vCase06: pc, K: (d.rsa.N.BitLen() + 7) / 8, Hist: "used", Src: "B-pred"}
+	good := d.certs["root/valid"]
+	pe.Res = w.attest(good, d.honest)
+	res := w.attest(dc, slot)
+	st.note(pe)
+	st.mu.Lock()
+	st.Pred++
+	if pe.Res.Acc {
+		st.PredAcc++
+	}
+	st.mu.Unlock()
+	tr.Emit(vEvent{Ev: "step", P: "C06", Tid: tid + "-pred", E: pe})
+	return res
 }
 
 // prime attests the genuine certificate of d's victim key on the long-lived Attestor (an honest slot signature),
@@ -518,6 +550,12 @@ func buildEM(em vEM, k int, tbs []byte, r *mrand.Rand) []byte {
 		cat(make([]byte, n-7), []byte{lead, bt}, ps(7), []byte{sep}, T)
 	case "ps0":
 		cat(make([]byte, n), []byte{lead, bt}, []byte{sep}, T)
+	case "zero3", "zero10", "zerohead":
+		cat([]byte{lead, bt}, ps(n), []byte{sep}, T)
+		z := map[string]int{"zero3": 3, "zero10": 10, "zerohead": k - len(T)}[em.Shape]
+		for i := 0; i < z; i++ {
+			out[i] = 0
+		}
 	case "bb06":
 		g := make([]byte, n-8)
 		r.Read(g)
@@ -654,6 +692,8 @@ type vStats06 struct {
 	B         int            `json:"b_cases"`
 	Calls     int            `json:"a_calls"`
 	Primed    int            `json:"primed"`
+	Pred      int            `json:"predecessors"`
+	PredAcc   int            `json:"predecessors_accepted"`
 	Cross     int            `json:"cross_cases"`
 	CrossAcc  int            `json:"cross_accepted"`
 	TwinCalls int            `json:"twin_calls_on_used"`
@@ -734,6 +774,8 @@ func TestVerifAttest06(t *testing.T) {
 		wg.Add(1)
 		go func(wi int) {
 			defer wg.Done()
+			runtime.LockOSThread() // a pair of calls issued back to back stays on one thread
+			defer runtime.UnlockOSThread()
 			for j := range jobs {
 				c := plan.Cases[j.ci].C
 				r := verifh.NewRand("attest06-A", int64(j.ci)*8191+int64(j.bits))
@@ -829,15 +871,21 @@ func (w *vWorld) runCaseA(c vCase06, ci, bits int, devs map[string]*vDev, r *mra
 	st.mu.Unlock()
 	// the same call on the long-lived Attestor (after whatever was attested before, concurrently with other calls),
 	// on a fresh one, and on the long-lived one once more: each call is its own event
-	for i, h := range []string{"used", "fresh", "used"} {
+	for i, h := range []string{"used", "fresh", "used", "after_accept", "after_accept"} {
 		if i == 2 && r.Intn(4) != 0 && c.Rel != "twin_self" && c.Rel != "twin_otherca" {
 			continue
 		}
+		if h == "after_accept" && (c.Kt != "rsa" || (c.Mut == "none" && i == 4)) {
+			continue // the pair is repeated for every mutated message
+		}
 		e2 := *ev
 		e2.Hist = h
-		if h == "fresh" {
+		switch h {
+		case "fresh":
 			e2.Res = w.attestOn(yubiattest.NewAttestorWithCAPool(w.pool), dc, slot)
-		} else {
+		case "after_accept":
+			e2.Res = w.afterAccept(dev, dc, slot, fmt.Sprintf("%s-%d", tid, i), tr, st)
+		default:
 			e2.Res = w.attest(dc, slot)
 		}
 		st.note(&e2)
@@ -891,6 +939,16 @@ func (w *vWorld) runB(dev *vDev, nflip int, only map[string]bool, tr *verifh.Tra
 		st.B++
 		st.mu.Unlock()
 		tr.Emit(vEvent{Ev: "step", P: "C06", Tid: tid, E: ev})
+		if src == "B-sigflip" || src == "B-bodyflip" || src == "B-sigform" {
+			e2 := *ev
+			e2.Hist = "after_accept"
+			e2.Res = w.afterAccept(dev, dev.certs[c.Rel+"/"+c.Time], slot, tid, tr, st)
+			st.note(&e2)
+			st.mu.Lock()
+			st.B++
+			st.mu.Unlock()
+			tr.Emit(vEvent{Ev: "step", P: "C06", Tid: tid + "-aa", E: &e2})
+		}
 	}
 	seen := func(sig []byte) []byte { // the encoded message the verifier computes: sig^e mod N, k octets
 		m := new(big.Int).Exp(new(big.Int).SetBytes(sig), e, priv.N)
